@@ -203,6 +203,22 @@ func genMapFamilies(g genCfg, c ContainerKind, level int, full bool) []*MapScen 
 			add(&MapScen{Rel: RelSD, NKeys: 2, Init: []int{0, 0}, Table: TGrowArmed, Bound: 3,
 				Threads: [][]MIn{{on(opStore, 0)}, {on(b, 1)}}, ExpectGrow: true})
 		}
+		// F12: four callers on one key / one bucket (MapOf only: the spin-lock Map explodes beyond three)
+		if c != CMap && c != CMapP {
+			four := []MIn{opStore, opDelete, opLoS, opLoad, opClear}
+			for i, a := range four {
+				for j, b := range four {
+					for k, c3 := range four {
+						for l, d := range four {
+							if j < i || k < j || l < k {
+								continue
+							}
+							add(&MapScen{Rel: RelSS, NKeys: 2, Init: []int{1, 0}, Table: TPlain, Bound: 3, Threads: [][]MIn{{on(a, 0)}, {on(b, 0)}, {on(c3, 0)}, {on(d, 1)}}})
+						}
+					}
+				}
+			}
+		}
 		// F11: keys that stop being bucket mates after the grow
 		for _, b := range allOps {
 			add(&MapScen{Rel: RelSplit, NKeys: 2, Init: []int{0, 1}, Table: TGrowArmed, Threads: [][]MIn{{on(opStore, 0)}, {on(b, 1)}}, ExpectGrow: true})
